@@ -62,16 +62,17 @@ type wireSrv struct {
 	mu   sync.Mutex
 	last time.Time
 
-	armed   bool
-	n       int
-	plan    map[int]time.Duration
-	onFirst func() // runs once, before the first stall
-	log     []string
-	t0      time.Time
-	onCmd   map[int]func()       // runs right before the given command is forwarded
-	onEach  func(names []string) // runs before every command of the call under test
-	drop    int                  // 1 + index of the command whose reply is lost
-	preTTL  bool                 // a stall happened and a TTL-carrying write followed it
+	armed     bool
+	n         int
+	plan      map[int]time.Duration
+	onFirst   func() // runs once, before the first stall
+	log       []string
+	t0        time.Time
+	onCmd     map[int]func()       // runs right before the given command is forwarded
+	onEach    func(names []string) // runs before every command of the call under test
+	drop      int                  // 1 + index of the command whose reply is lost
+	preTTL    bool                 // a stall happened and a TTL-carrying write followed it
+	replyOnly bool                 // every stall is on the reply path (the command reaches the server at once)
 
 	firstDone, stallSeen bool
 }
@@ -91,7 +92,11 @@ type wireConn struct {
 	w         *wireSrv
 	delayRead time.Duration
 	dropRead  bool
+	rdl       time.Time // the read deadline the client has set (a withheld reply ends there, as on a real connection)
 }
+
+func (c *wireConn) SetReadDeadline(t time.Time) error { c.rdl = t; return c.Conn.SetReadDeadline(t) }
+func (c *wireConn) SetDeadline(t time.Time) error     { c.rdl = t; return c.Conn.SetDeadline(t) }
 
 func cmdNames(b []byte) []string {
 	// RESP arrays of bulk strings: the command name is the first bulk string of each array
@@ -151,7 +156,7 @@ func (c *wireConn) Write(b []byte) (int, error) {
 			w.log = append(w.log, fmt.Sprintf("   (the reply of #%d is lost: the connection breaks)", j))
 		}
 		if d, ok := w.plan[j]; ok {
-			stall, pre = d, !carries
+			stall, pre = d, !carries && !w.replyOnly
 			if !w.firstDone {
 				first, w.firstDone = w.onFirst, true
 			}
@@ -205,6 +210,12 @@ func (c *wireConn) Read(b []byte) (int, error) {
 	}
 	if d := c.delayRead; d > 0 {
 		c.delayRead = 0
+		if !c.rdl.IsZero() && time.Until(c.rdl) < d {
+			if u := time.Until(c.rdl); u > 0 {
+				time.Sleep(u)
+			}
+			return 0, os.ErrDeadlineExceeded
+		}
 		time.Sleep(d)
 	}
 	return c.Conn.Read(b)
